@@ -28,6 +28,52 @@ def const_of(t):
     return T.const_int(t)
 
 
+def _is_buflen(t):
+    t = T.peel(t)
+    return T.is_call(t, r"slice::<impl \[T\]>::len$") and T.is_param(T.peel(t[2][0]), 2)
+
+
+def _room(t):
+    """K for a term `K - self.to_write.len()`"""
+    t = T.peel(t)
+    if isinstance(t, tuple) and t[0] == "bin" and t[1] == "Sub" and T.is_call(T.peel(t[3]), r"Vec::<T, A>::len$") and T.is_field(T.peel(T.peel(t[3])[2][0]), "to_write"):
+        return const_of(t[2])
+    return None
+
+
+def accepted_count(p, cnt):
+    """(count term, K2) when the count returned on path p is provably min(buf.len(), K2 - pending length): written with
+    `min`, or as one of the two operands on a path whose comparison of them makes it the smaller one; else None."""
+    c = T.peel(cnt)
+    if T.is_call(c, r"(cmp::min|Ord::min|Ord>::min)$") and len(c[2]) == 2:
+        a, b = c[2]
+        if _is_buflen(a) and _room(b) is not None:
+            return c, _room(b)
+        if _is_buflen(b) and _room(a) is not None:
+            return c, _room(a)
+        return None
+    want = "buf" if _is_buflen(c) else ("room" if _room(c) is not None else None)
+    if want is None:
+        return None
+    for i, blk, v, truth in p.decisions():
+        if not (isinstance(v, tuple) and v[0] == "bin" and v[1] in ("Lt", "Le", "Gt", "Ge")):
+            continue
+        a, b, op = v[2], v[3], v[1]
+        if _is_buflen(b) and _room(a) is not None:
+            a, b = b, a
+            op = {"Lt": "Gt", "Le": "Ge", "Gt": "Lt", "Ge": "Le"}[op]
+        if not (_is_buflen(a) and _room(b) is not None):
+            continue
+        k2 = _room(b)
+        if not truth:
+            op = {"Lt": "Ge", "Le": "Gt", "Gt": "Le", "Ge": "Lt"}[op]
+        smaller = "buf" if op in ("Lt", "Le") else "room"       # buf < / <= room: buf.len() is the minimum
+        if smaller == want or (op in ("Le", "Ge") and False):
+            return c, (k2 if want == "buf" else _room(c))
+        return None
+    return None
+
+
 def run(ctx, configs=None):
     """configs: restrict to these (used by C06/C07, whose `values arrive unchanged` covers cells of 16 MiB and more and
     therefore includes the framing clauses)."""
@@ -109,6 +155,10 @@ def run(ctx, configs=None):
                 rng = rng or T.find(dst, lambda x: isinstance(x, tuple) and x[0] == "agg" and (x[2] or "").endswith("ops::RangeTo"))
                 okr = rng is not None and ((len(rng[4]) == 2 and T.is_const_int(rng[4][0], 0) and T.is_const_int(rng[4][1], 3)) or (len(rng[4]) == 1 and T.is_const_int(rng[4][0], 3))) and \
                     T.contains(dst, lambda x: T.is_field(x, "to_write"))
+                # in general: the destination is bytes [0, 3) of the pending buffer, however the sub-slice is spelled
+                from engines import cursor as _cur
+                lb, lo_, ll = _cur.locate(dst)
+                okr = T.is_field(T.peel(lb), "to_write") and lo_ == Aff(0) and ll == Aff(3)
                 B = Bounds(ft, bbx, prog.ptr_bits)
                 v = val
                 if isinstance(v, tuple) and v[0] == "cast" and v[2] == "u32":
@@ -124,8 +174,23 @@ def run(ctx, configs=None):
         for bbx, i, s in st:
             tgt = ft.origin_local(s["lhs"]["l"], bbx, i)
             val = ft.origin_rvalue(s["rv"], bbx, i, 0)
-            if T.is_call(tgt, r"IndexMut<I>>::index_mut$|IndexMut::index_mut$") and T.is_field(T.peel(tgt[2][0]), "to_write") and T.is_const_int(tgt[2][1], 3) and T.is_field(T.peel(val), "seq"):
-                okb = True
+            if T.is_call(tgt, r"IndexMut<I>>::index_mut$|IndexMut::index_mut$") and T.is_const_int(tgt[2][1]) is not False and T.is_field(T.peel(val), "seq"):
+                from engines import cursor as _cur
+                lb, lo_, ll = _cur.locate(tgt[2][0])
+                k_ = T.const_int(tgt[2][1])
+                if T.is_field(T.peel(lb), "to_write") and k_ is not None and lo_.add(Aff(k_)) == Aff(3):
+                    okb = True
+        # the same through a built-in slice index: `header[3] = seq` with `header = &mut self.to_write[..4]`
+        for bbx, i, s in ft.stmts():
+            if s["k"] == "assign" and len(s["lhs"]["p"]) == 2 and s["lhs"]["p"][0] == "deref" and isinstance(s["lhs"]["p"][1], dict) and \
+                    ("idx" in s["lhs"]["p"][1] or "cidx" in s["lhs"]["p"][1]) and ft.local_ty(s["lhs"]["l"]).replace("&mut ", "") == "[u8]":
+                from engines import cursor as _cur
+                e_ = s["lhs"]["p"][1]
+                k_ = T.const_int(ft.origin_local(e_["idx"], bbx, i)) if "idx" in e_ else (e_["cidx"] if not e_.get("from_end") else None)
+                lb, lo_, ll = _cur.locate(ft.origin_local(s["lhs"]["l"], bbx, i))
+                val = ft.origin_rvalue(s["rv"], bbx, i, 0)
+                if T.is_field(T.peel(lb), "to_write") and k_ is not None and lo_.add(Aff(k_)) == Aff(3) and T.is_field(T.peel(val), "seq"):
+                    okb = True
         ctx.ob("C04.header-equals-payload", okb, "byte 3 of the header is not stamped from the sequence counter", fn=ft.path, construct="seq-byte")
 
         # ---- split threshold --------------------------------------------------------------------
@@ -143,6 +208,18 @@ def run(ctx, configs=None):
                     a = fw.arg_origin(bbx, i)
                     if isinstance(a, tuple) and a[0] == "bin" and a[1] == "Sub" and T.is_call(a[3], r"Vec::<T, A>::len$") and T.is_field(T.peel(a[3][2][0]), "to_write"):
                         K2 = const_of(a[2])
+        # the accepted count per Ok path: min(buf.len(), K2 - len), or one of the two chosen by a comparison of them
+        counts = {}
+        for p in enumerate_paths(fw):
+            if p.end != "return" or classify_return(p) == "err":
+                continue
+            rv = p.return_value()
+            if not (rv[0] == "agg" and rv[3] == "Ok" and rv[4]):
+                continue
+            counts[tuple(p.blocks)] = accepted_count(p, rv[4][0])
+        k2s = {c[1] for c in counts.values() if c is not None}
+        if K2 is None and len(k2s) == 1:
+            K2 = list(k2s)[0]
         ctx.ob("C04.split-threshold", K is not None and K2 is not None, "cannot find the split comparison / copy bound in Write::write (K=%s, K2=%s)" % (K, K2), fn=fw.path,
                construct="anchors", nontrivial=False)
         if K is not None and K2 is not None and H is not None:
@@ -152,14 +229,22 @@ def run(ctx, configs=None):
                    "a full packet carries %s payload bytes (pending buffer limit %s minus %d header bytes); the protocol requires 0xFFFFFF = 16777215 for continuation" % (
                        (K[0] - H) if K[0] is not None else None, K[0], H),
                    fn=fw.path, construct="max-payload", where=fw.where(K[2]), sample={"rule": "split-threshold", "K": K[0], "H": H, "payload": (K[0] or 0) - H})
-            # what is copied is buf[..left] with left = min(buf.len(), K2 - len)
-            for bbx, t2 in fw.calls():
-                if re.search(r"Extend<.*>>::extend$|extend_from_slice$", cname(t2["func"])):
-                    src = fw.arg_origin(bbx, 1)
-                    rt = T.find(src, lambda x: isinstance(x, tuple) and x[0] == "agg" and (x[2] or "").endswith("ops::RangeTo"))
-                    okc = rt is not None and T.is_call(rt[4][0], r"(cmp::min|Ord::min|Ord>::min)$") and T.contains(src, lambda x: T.is_param(x, 2))
-                    ctx.ob("C04.split-threshold", okc, "bytes appended to the pending buffer are %s (need buf[..min(buf.len(), K - len)])" % term_str(src)[:100], fn=fw.path,
-                           construct="copy", where=fw.where(bbx))
+            # what is copied is the first `count` bytes of buf, count = min(buf.len(), K2 - len) — per Ok path
+            from engines import cursor
+            ncopy = 0
+            for p in enumerate_paths(fw):
+                if p.end != "return" or classify_return(p) == "err":
+                    continue
+                c = counts.get(tuple(p.blocks))
+                for pos, bbx, t2 in p.calls():
+                    if re.search(r"Extend<.*>>::extend$|extend_from_slice$", cname(t2["func"])) and T.is_field(T.peel(p.arg(pos, 0)), "to_write"):
+                        ncopy += 1
+                        src = p.arg(pos, 1)
+                        base, off, ln = cursor.locate(src)
+                        okc = c is not None and T.is_param(T.peel(base), 2) and off == Aff(0) and ln is not None and ln == T.affine(c[0])
+                        ctx.ob("C04.split-threshold", okc, "bytes appended to the pending buffer are %s (need the first min(buf.len(), K - len) bytes of buf, the count that is returned)" % term_str(src)[:100],
+                               fn=fw.path, construct="copy", where=fw.where(bbx))
+            ctx.floor("C04.split-threshold", "appends on Ok paths of write", ncopy, 2)
 
         # ---- write progress ----------------------------------------------------------------------
         n = 0
@@ -185,7 +270,7 @@ def run(ctx, configs=None):
             ctx.ob("C04.write-progress", full is False or (full is True and ended), "an Ok path of write leaves a full pending buffer without ending the packet (full=%s, ended=%s)" % (full, ended),
                    fn=fw.path, construct="post-condition", where=fw.where(p.blocks[-1]))
             rv = p.return_value()
-            okr = rv[0] == "agg" and rv[3] == "Ok" and T.is_call(T.peel(rv[4][0]), r"(cmp::min|Ord::min|Ord>::min)$")
+            okr = rv[0] == "agg" and rv[3] == "Ok" and (T.is_call(T.peel(rv[4][0]), r"(cmp::min|Ord::min|Ord>::min)$") or counts.get(tuple(p.blocks)) is not None)
             ctx.ob("C04.write-progress", okr, "write must report the number of bytes it actually buffered (returns %s)" % term_str(rv)[:80], fn=fw.path, construct="returned-count", nontrivial=False)
         ctx.floor("C04.write-progress", "Ok paths of write", n, 2)
         # nobody hands bytes to the framer with a bare `write` (which may accept only part of them and whose count would be dropped)
